@@ -5,13 +5,13 @@ import json
 from .. import common, gen, ref
 
 PROP = "C01"
-RULE = ("bounded-exhaustive strings over a 40-character class alphabet (every class and transition the tokenizer distinguishes, incl. 2/3/4-byte "
+RULE = ("bounded-exhaustive strings over a 42-character class alphabet (every class and transition the tokenizer distinguishes, incl. 2/3/4-byte "
         "characters) - each parsed, rendered with expr()/describe() and executed on an empty and a populated context; random token soup and "
         "character-level corruptions of valid programs up to ~400 bytes; a depth ladder of 13 recursive shape families (one process per rung, 8 MiB "
         "stack); flat inputs up to 4 MiB. distinct class = (workload, input length / family, depth rung, outcome class)")
 ALPHABET = ["+", "-", "=", "!", "<", ">", "&", "|", "*", "/", "%", "^", "?", ":", "(", ")", "[", "]", "{", "}", "0", "1", ".", "e", "'", "\"", ";", ",", " ", "\n", "\r", "\t",
             "i", "n", "t", "A", "_", "é", "€", "😀", " ", "#"]
-ALPHABET = ALPHABET[:32] + ["i", "n", "t", "_", "é", "😀", "\u00a0", "\x0c"]  # 40 symbols
+ALPHABET = ALPHABET[:32] + ["i", "n", "t", "_", "é", "😀", "\u00a0", "\x0c", "\u0120", "\u0128"]  # 42 symbols
 
 FAMILIES = {
     "parens": lambda n: "(" * n + "1" + ")" * n,
@@ -35,13 +35,18 @@ def bucket(depth):
     return "<=100" if depth <= 100 else ("<=1000" if depth <= 1000 else ">1000")
 
 
+ALIAS_CHARS = ["\u0120", "\u2120", "\u010a", "\u0109", "\u010d", "\u0128", "\u0129", "\u015b", "\u015d", "\u017b", "\u017d", "\u012c", "\u013b", "\u0122", "\u0127", "\ufeff", "\u2028", "\u0085", "\u3000"]
+
+
 def soup(rnd):
     frags = ["1", "2.5", "a", "b1", "'s'", "\"q\"", "true", "f(", "(", ")", "[", "]", "{", "}", ",", ";", ":", "?", "+", "-", "*", "/", "%", "<<", ">>=", "==", "!=", "!", "not", "in", "AND", "OR",
              "beginWith", "++", "--", "=", "+=", "&&", "||", "é", "😀", " ", "'", "\"", ".", "e", "1e", "1.2.3", "_", "#", "\\", "\x00", "\x0b", "€"]
     n = rnd.randint(1, 60)
     out = []
+    if rnd.random() < 0.05:
+        out.append("\ufeff")  # a byte order mark as the very first character
     for _ in range(n):
-        out.append(rnd.choice(frags))
+        out.append(rnd.choice(frags) if rnd.random() < 0.97 else rnd.choice(ALIAS_CHARS))
         g = rnd.random()
         if g < 0.5:
             out.append(rnd.choice([" ", "\t", "\n", "\r", "  "]))
@@ -64,7 +69,7 @@ def corruptions(rnd, s):
             elif k < 0.5:
                 t = t[:i] + t[i] + t[i:]
             elif k < 0.8:
-                t = t[:i] + rnd.choice(ALPHABET + ["€", "#", " "]) + t[i:]
+                t = t[:i] + rnd.choice(ALPHABET + ["€", "#", " "] + ALIAS_CHARS) + t[i:]
             else:
                 j = rnd.randrange(len(t))
                 t = t[:min(i, j)] + t[max(i, j):]
@@ -116,6 +121,48 @@ def run_shard(desc):
         for kind_, detail, k in events:
             if kind_ in ("signal", "hang", "deadlock"):
                 part["violations"].append({"sig": [kind_, "enum"], "what": "exhaustive strings, shard %d: %s" % (si, detail), "replay": None})
+            else:
+                part["inconclusive"].append("%s: %s" % (kind_, detail))
+    elif kind == "tokenum":
+        alphabet = ["1", "a", "not", "in", "+", "*", "(", ")", "[", "'x", "1.2.3", "1e5", "é", "f", ",", ";", "?", ":", "=", "!", "++", "\"s\""]
+        step = {"op": "enum", "alphabet": alphabet, "minlen": 0, "maxlen": arg, "shard": si, "nshards": nshards, "join": " ", "glue_call": True, "tok": True, "exec": True, "rt": False, "sample": 0, "cpu_budget_s": 20}
+        recs, events, extra = common.run_batch([step], wd, "tokenum-%d-%d-%s" % (arg, si, profile), profile, timeout=3600, max_restarts=0)
+        en = (recs[0] or {}).get("enum", {})
+        part["evaluations"] += en.get("n", 0)
+        C["tokenum_n"] = en.get("n", 0)
+        if en:
+            part["classes"].add("tokenum:len<=%d" % arg)
+        for r in extra:
+            if "viol" in r and r["viol"].startswith("panic"):
+                part["violations"].append(viol_from_record(r, "tokenum"))
+        for kind_, detail, k in events:
+            if kind_ in ("signal", "hang", "deadlock"):
+                part["violations"].append({"sig": [kind_, "tokenum"], "what": "token sequences, shard %d: %s" % (si, detail), "replay": None})
+            else:
+                part["inconclusive"].append("%s: %s" % (kind_, detail))
+    elif kind == "arith":
+        # execute() must not unwind on the arithmetic fault product either (C04 judges the values, here only totality)
+        from . import c04
+        items = [x for i, x in enumerate(c04.product()) if i % nshards == si]
+        steps = []
+        for i, (t, vars_, label) in enumerate(items):
+            steps.append({"op": "ctx", "id": i, "vars": vars_})
+            steps.append({"op": "exec", "ctx": i, "text": ref.Renderer().render(t), "nosnap": True})
+        recs, events, _ = common.run_batch(steps, wd, "arith-%d-%s" % (si, profile), profile, timeout=1200)
+        for i, (t, vars_, label) in enumerate(items):
+            r = recs[2 * i + 1]
+            if r is None:
+                continue
+            part["evaluations"] += 1
+            C["arith"] = C.get("arith", 0) + 1
+            res = r.get("res")
+            if isinstance(res, dict) and "panic" in res:
+                part["violations"].append(viol_from_record({"viol": "panic:exec", "input": steps[2 * i + 1]["text"] + " with " + json.dumps(vars_), "detail": "%s @ %s" % (res.get("panic"), res.get("loc"))}, "arith"))
+            else:
+                part["classes"].add("arith:%s" % label)
+        for kind_, detail, k in events:
+            if kind_ in ("signal", "hang", "deadlock"):
+                part["violations"].append({"sig": [kind_, "arith"], "what": detail, "replay": None})
             else:
                 part["inconclusive"].append("%s: %s" % (kind_, detail))
     elif kind == "soup":
@@ -248,6 +295,8 @@ def run(rep, tier):
     L = 4 if tier == "quick" else 5
     shards = [("enum", i, 16, L, "release") for i in range(16)]
     shards += [("enum", i, 4, 3, "verifdbg") for i in range(4)]
+    shards += [("tokenum", i, 16, 4 if tier == "quick" else 5, "release") for i in range(16)]
+    shards += [("arith", i, 8, 0, "release" if i % 2 else "verifdbg") for i in range(8)]
     ns = 16000 if tier == "quick" else 400000
     per = 1000 if tier == "quick" else 12500
     shards += [("soup", i, 0, per, "release" if i % 2 else "verifdbg") for i in range(ns // per)]
